@@ -89,6 +89,12 @@ def make_input(call: Call, idx: int) -> AnnotatedBatch:
     if sk == "reorder":
         return AnnotatedBatch(pa.RecordBatch.from_pydict({"w": ws, "v": vs}, schema=pa.schema(
             [pa.field("w", pa.string()), pa.field("v", pa.int64())])))
+    if sk == "reorder_widen":
+        return AnnotatedBatch(pa.RecordBatch.from_pydict({"w": ws, "v": vs}, schema=pa.schema(
+            [pa.field("w", pa.string()), pa.field("v", pa.int32())])))
+    if sk == "reorder_nonnull":
+        return AnnotatedBatch(pa.RecordBatch.from_pydict({"w": ws, "v": vs}, schema=pa.schema(
+            [pa.field("w", pa.string(), nullable=False), pa.field("v", pa.int64(), nullable=False)])))
     if sk == "widen":
         return AnnotatedBatch(pa.RecordBatch.from_pydict({"v": vs, "w": ws}, schema=pa.schema(
             [pa.field("v", pa.int32()), pa.field("w", pa.string())])))
